@@ -762,6 +762,39 @@ class Patched:
             if hasattr(mod, "time"):
                 self._set(mod, "time", ti)
 
+        # synchronisation objects created at import time (class or module level) are real ones and
+        # would block the process: substitute simulated ones for the duration of the run
+        import inspect
+        import pkgutil
+        import ynca.subunits
+
+        mods = [ynca.connection, ynca.subunit, ynca.api]
+        for mi in pkgutil.iter_modules(ynca.subunits.__path__):
+            try:
+                mods.append(__import__("ynca.subunits." + mi.name, fromlist=["x"]))
+            except Exception:  # noqa
+                pass
+        real_lock_types = (type(_real_threading.Lock()), type(_real_threading.RLock()))
+
+        def sub(val):
+            if isinstance(val, _real_threading.Event):
+                e = SimEvent(sim)
+                e.flag = val.is_set()
+                return e
+            if isinstance(val, real_lock_types):
+                return SimLock(sim)
+            if isinstance(val, _real_queue.Queue):
+                return SimQueue(sim)
+            return None
+
+        for mod in mods:
+            holders = [mod] + [c for _, c in inspect.getmembers(mod, inspect.isclass) if getattr(c, "__module__", None) == mod.__name__]
+            for h in holders:
+                for name, val in list(vars(h).items()):
+                    r = sub(val)
+                    if r is not None:
+                        self._set(h, name, r)
+
         T = _real_threading.Thread
         if not _REAL:
             _REAL.update(start=T.start, join=T.join, is_alive=T.is_alive)
@@ -920,6 +953,7 @@ class Patched:
                 sim.ev("CbEnter", set="message", item=_cb_label(getattr(self_, "_protocol_message_received")))
             return pmr(self_, status, subunit, function_name, value_str)
 
+        pmr2.__name__ = "_protocol_message_received"
         self._set(SB, "_protocol_message_received", pmr2)
 
         RT = serial.threaded.ReaderThread
